@@ -157,6 +157,8 @@ def explicit_gates(spec: dict) -> list:
         for item in ("file_parameters", "size", "lss", "disk_id"):
             g.append(["vhdx_drop_item", item, "missing required metadata item"])
         g.append(["vhdx_active_header_sig", 0, "active header signature"])
+        for is_user in (0, 1):
+            g.append(["vhdx_unknown_required_item", is_user, "unknown metadata item flagged IsRequired"])
     if t == "other" and spec["name"].startswith("hyperv:"):
         g.append(["hyperv_active_version", 0x300, "unsupported version in the active header"])
         g.append(["hyperv_active_version", 0x500, "unsupported version in the active header"])
@@ -248,6 +250,8 @@ def crafted(spec: dict) -> list:
     if t == "chain" and spec["ccase"]["kind"] == "hdd":
         for n in (1, 2, 3, 4):
             c.append(["hdd_shot_cycle", n])
+        for tail, ring in ((1, 1), (1, 3), (2, 2), (3, 4)):
+            c.append(["hdd_shot_rho", [tail, ring]])
     if t == "other" and spec["name"].startswith("hyperv:"):
         c.append(["hyperv_objtable_self", 0])
         c.append(["hyperv_objtable_loop2", 0])
@@ -361,6 +365,32 @@ def _f_hdd_shot_cycle(world, b, spec, n):
             parent = guids[(i + 1) % len(guids)]
             shots += f"<Shot><GUID>{g}</GUID><ParentGUID>{parent}</ParentGUID></Shot>"
         top = f"<TopGUID>{guids[0]}</TopGUID>"
+        return re.sub(r"<Snapshots>.*</Snapshots>", "<Snapshots>" + top + shots + "</Snapshots>", txt, flags=re.S)
+
+    _rewrite_text(world, p, fn)
+
+
+def _f_hdd_shot_rho(world, b, spec, shape):
+    """A tail of `tail` shots leading into a ring of `ring` shots that does not contain the snapshot being opened."""
+    import re
+
+    tail, ring = shape
+    p = _find(world, "DiskDescriptor.xml")
+
+    def fn(txt):
+        guids = re.findall(r"<Shot>\s*<GUID>([^<]+)</GUID>", txt)
+        extra = ["{%08x-0000-4000-8000-%012x}" % (0xABC00000 + i, i) for i in range(tail + ring)]
+        # every existing snapshot becomes part of the tail, so whichever one is opened walks into the ring
+        seq = guids + extra[:tail]
+        ringg = extra[tail : tail + ring]
+        shots = ""
+        for i, g in enumerate(seq):
+            parent = seq[i + 1] if i + 1 < len(seq) else ringg[0]
+            shots += f"<Shot><GUID>{g}</GUID><ParentGUID>{parent}</ParentGUID></Shot>"
+        for i, g in enumerate(ringg):
+            shots += f"<Shot><GUID>{g}</GUID><ParentGUID>{ringg[(i + 1) % len(ringg)]}</ParentGUID></Shot>"
+        m = re.search(r"<TopGUID>[^<]*</TopGUID>", txt)
+        top = m.group(0) if m else ""
         return re.sub(r"<Snapshots>.*</Snapshots>", "<Snapshots>" + top + shots + "</Snapshots>", txt, flags=re.S)
 
     _rewrite_text(world, p, fn)
@@ -601,6 +631,25 @@ def _f_vhdx_drop_item(world, b, spec, item):
                     _set_bytes(f, e + 24, struct.pack("<I", 0))
 
 
+def _f_vhdx_unknown_required_item(world, b, spec, is_user):
+    """Append an item with an unknown GUID and IsRequired=1 (system or user namespace) to the metadata table."""
+    import struct
+
+    f = _vhdx_top(world)
+    raw = f.pread(192 << 10, 16 + 32 * 4)
+    cnt = struct.unpack("<I", raw[8:12])[0]
+    for j in range(cnt):
+        g, fo, ln, req = struct.unpack("<16sQII", raw[16 + 32 * j : 48 + 32 * j])
+        if g == bytes.fromhex("06a27c8b90479a4bb8fe575f050f886e"):
+            mc = struct.unpack("<H", f.pread(fo + 10, 2))[0]
+            e = fo + 32 + 32 * mc
+            f.write(e, struct.pack("<16sIIII", bytes.fromhex("0123456789abcdef0123456789abcdef"), (64 << 10) + 0x800, 8, 0b100 | (1 if is_user else 0), 0))
+            f.write(fo + (64 << 10) + 0x800, b"required")
+            _set_bytes(f, fo + 10, struct.pack("<H", mc + 1))
+            return
+    return "skip"
+
+
 def _f_vhdx_active_header_sig(world, b, spec, _):
     import struct
 
@@ -733,6 +782,10 @@ def _warm():
                 b.use(o)
         except Exception:
             pass
+
+
+def warm_process():
+    _warm()
 
 
 def run_case(case: dict) -> RunResult:
